@@ -215,6 +215,40 @@ def main():
         if exp_ != m_:
             mism.append(dict(kind="input", component="qmail-newu", text=t.decode("latin1")[:400], real_exit=rc_, real_len=None if img is None else len(img), model=m_[:40],
                              first_difference=None if img is None or m_ == "E" else next((i for i, (a_, b_) in enumerate(zip(vlib.hx(img), m_)) if a_ != b_), None)))
+    # ---------------- a large table (hundreds of records: long probe chains, wrap-around in the hash tables) and long local parts
+    #                  (the reader compares keys in 32-byte pieces): every record is looked up through the real reader and the model,
+    #                  and a sample is delivered through the real qmail-lspawn
+    longs = [b"x" * 31, b"y" * 32, b"z" * 33, b"very-long-local-part-for-a-mailing-list-address-0123456789", b"w" * 70]
+    big = [("=", b"u%03d" % k, [b"user%d" % k, b"%d" % (22000 + k), b"%d" % (27000 + k), b"/vh/%d" % k, b"", b""]) for k in range(400)] + \
+          [("=", l, [b"long%d" % k, b"%d" % (23000 + k), b"%d" % (28000 + k), b"/vh/l%d" % k, b"", b""]) for k, l in enumerate(longs)] + \
+          [("+", b"", [b"catchall", b"24000", b"29000", b"/vh/catch", b"-", b""])]
+    if L.write_assign(big) == 0:
+        img = open(os.path.join(L.home, "users/cdb"), "rb").read()
+        txt = open(os.path.join(L.home, "users/assign"), "rb").read()
+        mi, _, _ = vlib.run_lines(tdrv, ["newu " + vlib.hx(txt)])
+        ck.evaluated(); ck.count("newu_images_written")
+        if mi[0] != vlib.hx(img): mism.append(dict(kind="input", component="qmail-newu (large table)", real_len=len(img), model_len=len(mi[0]) // 2))
+        hcdb = rb.harness("h_cdb", "qmail-newmrh", extra_objs=["cdb.a"])
+        keys = [b"!u%03d\0" % k for k in range(400)] + [b"!" + l + b"\0" for l in longs] + [b"!u400\0", b"!" + b"x" * 30 + b"\0", b"!" + b"z" * 33 + b"q\0", b"", b"!"]
+        gl = ["get %s %s" % (vlib.hx(img), vlib.hx(k)) for k in keys]
+        ga, _, _ = vlib.run_lines([hcdb, os.path.join(vlib.scratch(), "h_cdb11.tmp")], gl)
+        gb, _, _ = vlib.run_lines(tdrv, gl)
+        for k, x_, y_ in zip(keys, ga, gb):
+            ck.evaluated(); ck.count("large_table_lookups")
+            if x_ != y_: mism.append(dict(kind="input", component="cdb_seek on users/cdb (large table)", key=k.decode("latin1"), real=x_[:80], model=y_[:80]))
+        # records the real reader does not find (or finds differently from the model) are delivered for real: a concrete history
+        suspicious = [k[1:-1] for k, x_, y_ in zip(keys[:405], ga, gb) if x_ != y_ or not x_.startswith("F ")][:8]
+        sample = [b"u%03d" % k for k in rng.sample(range(400), 25)] + longs + [b"U007", b"nosuchuser"] + suspicious
+        reps, _ = L.deliver(sample)
+        for l, rep in zip(sample, reps):
+            ck.evaluated(); ck.count("large_table_deliveries"); ck.nontrivial(("big", l))
+            obs = parse_stub(rep)
+            if l.lower().startswith(b"u") and l[1:].isdigit(): want = (b"user%d" % int(l[1:]), 22000 + int(l[1:]))
+            elif l in longs: want = (b"long%d" % longs.index(l), 23000 + longs.index(l))
+            else: want = (b"catchall", 24000)
+            if obs is None or obs["uid"] != want[1] or obs["args"][1].encode("latin1") != want[0]:
+                fails.append(("lspawn:wrong-user-for-address", dict(kind="configuration", assign="400 exact entries u000..u399, 5 long exact entries, catch-all", local=l.decode("latin1"),
+                                                                     report=rep.decode("latin1")[:300], expected=[want[0].decode(), str(want[1])]), len(l)))
     # ---------------- corrupted / truncated constant database: defer, never misdirect
     table = [("=", b"u%d" % k, [b"user%d" % k, b"%d" % (21000 + k), b"%d" % (26000 + k), b"/vh/%d" % k, b"", b""]) for k in range(40)]
     L.write_assign(table)
